@@ -96,7 +96,13 @@ func (in *Interp) runPath(fn *ssa.Function, prefix []int) {
 				}
 			case "unsupported":
 				h.Unsupported[e.Msg]++
+			case "diverged":
+				h.noteInconclusive("diverged: " + e.Msg)
 			case "stop":
+				h.Stops++
+				if len(h.StopMsgs) < 5 {
+					h.StopMsgs = append(h.StopMsgs, e.Msg+" "+in.pathSample())
+				}
 			}
 		case *goPanic:
 			if e.Exit {
@@ -130,7 +136,11 @@ func (in *Interp) pathSample() string {
 		}
 		parts = append(parts, s)
 	}
-	return fmt.Sprintf("decisions=%v pc=[%s]", in.decisions, strings.Join(parts, " ∧ "))
+	ds := make([]int, len(in.decisions))
+	for i, d := range in.decisions {
+		ds[i] = d & 0xffff
+	}
+	return fmt.Sprintf("decisions=%v pc=[%s]", ds, strings.Join(parts, " ∧ "))
 }
 
 // recordViolation queries a model for the current path (plus extra) and
@@ -453,6 +463,9 @@ func (h *HarnessRun) Summary() string {
 	var sb strings.Builder
 	fmt.Fprintf(&sb, "%s: paths=%d completed=%d infeasible=%d budget=%d unwind=%d decisions=%d violations=%d known=%d",
 		h.Name, h.Paths, h.Completed, h.Infeasible, h.Budget, h.UnwindFail, h.Decisions, len(h.Violations), len(h.Known))
+	if h.Stops > 0 {
+		fmt.Fprintf(&sb, " stops=%d %v", h.Stops, h.StopMsgs)
+	}
 	if len(h.Unsupported) > 0 {
 		var ks []string
 		for k, n := range h.Unsupported {
